@@ -3,6 +3,7 @@ import random
 
 import common as C
 import gen
+import numeric as N
 import orc
 
 
@@ -36,5 +37,36 @@ def run(res, replay=None):
             cases.append({'spec': s, 'ts': ts, 'extra_times': extra, 'T': rng.choice([0.5, 1.0, 2.0, 3.5]),
                           'window': [a, a + rng.choice([0.25, 0.5, 1.0, 2.0])]})
     results = orc.run_oracle(res, 'accumulation', cases, chunk=1)
+    # accumulation curves on multi-point grids against the Gallina propagation loop, incl. rewards that stall
+    # before absorption (isolation then contact; per-population and per-bin rewards)
+    items = []
+    for i in range(3 if res.tier == 'quick' else 16):
+        s = gen.rand_spec(rng, n_total=rng.choice([2, 3]), n_demes=2, n_epochs=rng.choice([2, 3]), end_time='never',
+                          isolation=True, kinds=('kingman',))
+        tot = gen.effective_n(s)
+        # late colonisation (all samples in the first population) or isolation then contact
+        s['n_items'] = [[s['n_items'][0][0], tot], [s['n_items'][1][0], 0]] if i % 2 == 0 else [[s['n_items'][0][0], tot - 1], [s['n_items'][1][0], 1]]
+        pops = [p for p, _ in s['n_items']]
+        b1 = sorted(float(t) for d in s['migration_rates'].values() for t in d)[1]
+        ts = [b1 / 4, b1 / 2, b1 + 0.5, b1 + 2.0, b1]
+        rng.shuffle(ts)
+        ops = [dict(py={'kind': 'accumulate', 'dist': 'tree_height', 'k': 1, 'ts': ts, 'center': False},
+                    queries=[dict(kind='accumulate', k=1, rewards=[['TreeHeight']], center=False, ts=ts)],
+                    combine=lambda mq: mq[0], uses_horizon=False)]
+        for p in pops:
+            ops.append(dict(py={'kind': 'accumulate', 'dist': f"tree_height.demes['{p}']", 'k': 1, 'ts': ts, 'center': False},
+                            queries=[dict(kind='accumulate', k=1, rewards=[['Combined', [['TreeHeight'], ['Deme', p]]]], center=False, ts=ts)],
+                            combine=lambda mq: mq[0], uses_horizon=False))
+        items.append(dict(spec=s, lc=True, ops=ops))
+        if tot == 3:
+            nb = tot - 1
+            items.append(dict(spec=s, lc=False, ops=[dict(
+                py={'kind': 'accumulate', 'dist': 'sfs', 'k': 1, 'ts': ts, 'center': False},
+                queries=[dict(kind='accumulate', k=1, rewards=[['Combined', [['Unit'], ['UnfoldedSFS', j]]]], center=False, ts=ts)
+                         for j in range(1, tot)],
+                combine=lambda mq, n_=tot, nt=len(ts): [[0.0] * nt] + [list(x) for x in mq] + [[0.0] * nt] * (n_ - len(mq)),
+                uses_horizon=False)]))
+    N.run_items(res, 'C10', 'accumulation_curves', items,
+                what='accumulation curve differs from the epoch-by-epoch propagation of the model')
     res.extra['input_distribution'] = {'horizon_warnings': sum(1 for _, r in results if isinstance(r.get('info'), dict) and r['info'].get('warned')),
                                        'cases': len(cases)}
